@@ -192,6 +192,8 @@ def run(P, R, tier):
     copy_rules(P, R, K, tab)
     component_rules(P, R, K, tab)
     overwrite_rule(P, R, K)
+    pending_rule(P, R)
+    modifyone_rule(P, R)
 
 
 def writes_store(s):
@@ -667,3 +669,78 @@ def component_rules(P, R, K, tab):
             R.ok("C14.components", q.split("::")[-1], "refreshes through ListComponents")
         else:
             R.violation("C14.components", q.split("::")[-1], "%s reads the component list without refreshing it" % q, file=f["file"], line=f["line"], function=f["q"])
+
+
+def pending_rule(P, R):
+    """Requests that are recorded while a simulation is read and carried out at its end - COPY (members of type `copier`), DELETE
+    (delete_info) and the *_MIX definitions (the std::map<int, cxxMix> members do_mixes consumes) - belong to that simulation.  A
+    simulation that stops early never carries them out; read_input, which every simulation starts with, must discard them on every
+    path, otherwise a later simulation or call deletes / copies entries it does not name ("DELETE removes exactly the named entries")."""
+    RULE = "C14.pending"
+    R.rule(RULE, "read_input discards the pending COPY / DELETE / *_MIX requests of an earlier simulation on every path", minimum=19)
+    rec = P.records.get("Phreeqc")
+    f = P.one("Phreeqc::read_input")
+    dm = P.one("Phreeqc::do_mixes")
+    mixmaps = {x[2].split("::")[-1] for x in T.walk(dm["body"]) if x[0] == "Member" and x[2].startswith("Phreeqc::")}
+    need = []
+    for fl in rec["fields"]:
+        if fl["type"] == "class copier" or fl["type"] == "StorageBinList" and fl["name"] == "delete_info":
+            need.append(fl["name"])
+        elif "cxxMix" in fl["type"] and fl["type"].startswith("std::map<int") and fl["name"] in mixmaps:
+            need.append(fl["name"])
+    if len(need) < 19:
+        R.anchor_missing(RULE, "only %d request members found (11 copier, delete_info, 7 mix maps expected)" % len(need))
+        return
+    cfg = T.CFG(f)
+    dom = cfg.dominators()
+    cleared = {}
+    for nd in cfg.nodes:
+        n = nd["n"]
+        if not T.is_node(n) or nd["id"] not in dom.get(cfg.exit, ()):
+            continue
+        for c in T.calls(n):
+            nm = T.callee_name(c)
+            if nm == "copier_clear" and c[4]:
+                a = T.strip_casts(c[4][0])
+                if T.is_node(a) and a[0] == "Un" and a[2] == "&" and T.is_node(a[3]) and a[3][0] == "Member":
+                    cleared[a[3][2].split("::")[-1]] = c[1]
+            elif nm == "clear" or (nm == "SetAll" and c[4] and T.lit_value(T.strip_casts(c[4][0])) == 0):
+                o = T.strip_casts(T.call_obj(c))
+                if T.is_node(o) and o[0] == "Member":
+                    cleared[o[2].split("::")[-1]] = c[1]
+    for m in need:
+        if m in cleared:
+            R.ok(RULE, m, "discarded at line %d on every path through read_input" % cleared[m])
+        else:
+            R.violation(RULE, m, "read_input does not discard %s on every path: a request recorded by a simulation that stopped before carrying it out is executed by the next "
+                        "simulation or call, which did not name it" % m, file=f["file"], line=f["line"], function=f["q"])
+
+
+def modifyone_rule(P, R):
+    """"*_MODIFY changes only the named quantities of the named entry": Utilities::Rxn_read_modify modifies entry n in place.  Every entry
+    that carries a range end m > n is expanded by tidy_model (Rxn_copies n -> n+1..m) whenever the kind is (re)defined - so the reader
+    must not leave the range end of the `<KEYWORD>_MODIFY n-m` line on the entry: the value given to Set_n_user_end has to be the entry's
+    own number (the value given to Set_n_user).  Checked for every instantiation of the template."""
+    RULE = "C14.modifyone"
+    R.rule(RULE, "Rxn_read_modify leaves no range end on the modified entry (Set_n_user_end receives the entry's own number)", minimum=8)
+    fs = [g for g in P.functions.values() if g["q"].startswith("Utilities::Rxn_read_modify<")]
+    if len(fs) < 8:
+        R.anchor_missing(RULE, "only %d instantiations of Utilities::Rxn_read_modify" % len(fs))
+        return
+    for g in sorted(fs, key=lambda f: f["q"]):
+        inst = g["q"][len("Utilities::Rxn_read_modify<"):-1]
+        a = [c for c in T.calls(g["body"]) if T.callee_name(c) == "Set_n_user" and c[4]]
+        b = [c for c in T.calls(g["body"]) if T.callee_name(c) == "Set_n_user_end" and c[4]]
+        both = [c for c in T.calls(g["body"]) if T.callee_name(c) == "Set_n_user_both"]
+        if not a and not both:
+            R.anchor_missing(RULE, "%s: neither Set_n_user nor Set_n_user_both called" % g["q"])
+            continue
+        own = " ".join(T.text((a or both)[-1][4][0]).split())
+        bad = [c for c in b if " ".join(T.text(c[4][0]).split()) != own]
+        if bad:
+            R.violation(RULE, inst, "Rxn_read_modify gives the entry the range end `%s` of the MODIFY line (its number is `%s`): tidy_model then copies the entry over the following "
+                        "numbers, at once or when the kind is next defined" % (T.text(bad[0][4][0])[:40], own[:40]), file=g["file"], line=bad[0][1], function=g["q"])
+        elif b or both:
+            R.ok(RULE, inst, "range end = own number")
+        else:
+            R.violation(RULE, inst, "Rxn_read_modify does not reset the range end of the entry (read_raw may have read one from the MODIFY line)", file=g["file"], line=(a or both)[-1][1], function=g["q"])
